@@ -29,6 +29,10 @@ class DeadPath(BaseException):
     """a queued alternative turned out to be infeasible (not a path)"""
 
 
+class PathTimeout(BaseException):
+    """the analysed code did not come back within the per-path wall budget"""
+
+
 class HarnessError(BaseException):
     """The harness/shim itself is wrong (cross-validation mismatch, ...)."""
 
@@ -314,8 +318,15 @@ class PathResult:
         self.dead = False
 
 
-def run_path(harness, prefix, W, seed=0, timeout_ms=20000, ctx_factory=None, engine=None):
-    """Run the harness once along ``prefix``; returns (PathResult, engine)."""
+def _on_alarm(signum, frame):
+    raise PathTimeout()
+
+
+def run_path(harness, prefix, W, seed=0, timeout_ms=20000, ctx_factory=None, engine=None, path_timeout_s=None):
+    """Run the harness once along ``prefix``; returns (PathResult, engine).
+    path_timeout_s: wall budget of one path (a concrete loop in the analysed code that never ends
+    has no decision at which the engine could stop it); on expiry the context's on_timeout() may
+    record a candidate for a resource-limited concrete replay, else the path is inconclusive."""
     if engine is None:
         eng = Engine(prefix, W=W, seed=seed, timeout_ms=timeout_ms)
     else:
@@ -324,8 +335,28 @@ def run_path(harness, prefix, W, seed=0, timeout_ms=20000, ctx_factory=None, eng
     Engine.cur = eng
     res = PathResult()
     ctx = ctx_factory(eng, res) if ctx_factory else eng
+    old_handler = None
+    if path_timeout_s:
+        import signal
+        old_handler = signal.signal(signal.SIGALRM, _on_alarm)
+        signal.setitimer(signal.ITIMER_REAL, path_timeout_s)
     try:
-        harness(ctx)
+        try:
+            harness(ctx)
+        finally:
+            if path_timeout_s:
+                signal.setitimer(signal.ITIMER_REAL, 0)
+                signal.signal(signal.SIGALRM, old_handler)
+    except PathTimeout:
+        handled = False
+        cb = getattr(ctx, 'on_timeout', None)
+        if cb is not None:
+            try:
+                handled = cb(path_timeout_s)
+            except Exception:
+                handled = False
+        if not handled:
+            res.inconclusive = 'path did not finish within %s s wall (possible non-termination)' % path_timeout_s
     except Inconclusive as e:
         res.inconclusive = str(e) or 'inconclusive'
     except DeadPath:
@@ -343,7 +374,7 @@ def run_path(harness, prefix, W, seed=0, timeout_ms=20000, ctx_factory=None, eng
 
 
 def explore(harness, W=192, prefixes=None, max_paths=None, deadline=None, seed=0,
-            timeout_ms=20000, ctx_factory=None, on_path=None):
+            timeout_ms=20000, ctx_factory=None, on_path=None, path_timeout_s=None):
     """Depth-first exploration.  Returns (list of PathResult, leftover prefixes)."""
     stack = [list(p) for p in (prefixes if prefixes is not None else [[]])]
     out = []
@@ -355,7 +386,8 @@ def explore(harness, W=192, prefixes=None, max_paths=None, deadline=None, seed=0
         if max_paths is not None and n >= max_paths:
             break
         prefix = stack.pop()
-        res, eng = run_path(harness, prefix, W, seed, timeout_ms, ctx_factory, engine=eng)
+        res, eng = run_path(harness, prefix, W, seed, timeout_ms, ctx_factory, engine=eng,
+                            path_timeout_s=path_timeout_s)
         n += 1
         for i, alt in res.forks:
             stack.append(res.decisions[:i] + [alt])
